@@ -1,5 +1,10 @@
 package checks
 
-import "encoding/json"
+import (
+	"bytes"
+	"encoding/json"
+)
 
 func jsonUnmarshal(b []byte, v any) error { return json.Unmarshal(b, v) }
+
+func bytesReader(b []byte) *bytes.Reader { return bytes.NewReader(b) }
